@@ -12,6 +12,13 @@ sys.path.insert(0, os.path.dirname(os.path.dirname(os.path.abspath(__file__))))
 from native import oracles  # noqa: E402
 
 
+def cvss_error():
+    oracles.lib()
+    import cvss.exceptions
+
+    return cvss.exceptions.CVSSError
+
+
 def main():
     req = json.load(sys.stdin)
     out = []
@@ -21,6 +28,10 @@ def main():
             d = fn(job["input"])
             out.append({"ok": d is None, "detail": d, "error": None})
         except Exception as e:  # noqa: an exception escaping the library is reported, not hidden
+            if job["input"].get("if_accepted") and isinstance(e, cvss_error()):
+                # the statement is about accepted inputs; this one was rejected in the documented way
+                out.append({"ok": True, "detail": "rejected", "error": None})
+                continue
             out.append({"ok": False, "detail": None,
                         "error": "%s: %s" % (type(e).__name__, e),
                         "trace": traceback.format_exc()[-1500:]})
